@@ -301,9 +301,20 @@ def rule_realign(ctx, P, rb, rc):
             continue
         br = (b, unal, al)
         b, unal, al = br
+        def fresh(v, depth=0):
+            # a fresh buffer, possibly merged from the two branches that allocate (`replacement = alloc(); ... data[i] = replacement`)
+            d_ = f.defs.get(strip_ptr_casts(f, v))
+            if d_ is None or depth > 4:
+                return False
+            if d_.op == 'call':
+                return d_.callee == '@alloc_fragment_buffer'
+            if d_.op == 'phi':
+                return all(fresh(x_, depth + 1) for x_, _ in d_.incoming)
+            if d_.op == 'select':
+                return all(fresh(x_, depth + 1) for x_ in d_.ops[1:])
+            return False
         def is_replace(i):
-            return i.op == 'store' and i.ops[1] in A and f.defs.get(i.ops[0]) is not None and f.defs[i.ops[0]].op == 'call' \
-                and f.defs[i.ops[0]].callee == '@alloc_fragment_buffer'
+            return i.op == 'store' and i.ops[1] in A and fresh(i.ops[0])
         def leaves(i):
             return i.op == 'ret' or (i.bb is al and i.idx == 0)
         esc = reaches_without(f, unal, lambda i: (i.bb is al) or i.op == 'ret' and False, is_replace, 0)
